@@ -16,6 +16,12 @@ package main
 //	        buffer    GenericBuffer[any].WriteRows, WriteRowGroup at each Flush of the history and at the end
 //	        rowbuffer RowBuffer[any].WriteRows, idem
 //	        sorting   SortingWriter[any].WriteRows (with or without a sorting column), Flush = Flush
+//	        handover  one GenericWriter[any] that is given each batch of the history in another way
+//	                  (drawn from the seed and the batch number): WriteRows; column by column through
+//	                  ColumnWriters()[i].WriteRowValues; a row group begun with BeginRowGroup, filled
+//	                  through its WriteRows or its ColumnWriters, and committed at once (the rows the
+//	                  writer holds pending come first: ConcurrentRowGroupWriter.Commit).  The rows must
+//	                  be read back in the order in which the calls returned, serially.
 //	reuse : keep      fresh clones, never touched again (the caller the suite has)
 //	        scribble  the rows live in one Value slab and one byte arena of the caller; after each
 //	                  WriteRows every byte of the arena is inverted, every Value is replaced and the
@@ -42,7 +48,7 @@ type rowCase struct {
 	Reuse string `json:"reuse,omitempty"`
 }
 
-var rowSinks = []string{"writer", "rowbuffer", "writer", "sorting", "writer", "buffer", "writer", "rowbuffer", "writer", "sorting", "writer", "legacy"}
+var rowSinks = []string{"writer", "rowbuffer", "handover", "sorting", "writer", "buffer", "writer", "rowbuffer", "handover", "sorting", "writer", "legacy"}
 var reuseModes = []string{"keep", "scribble", "refill"}
 
 // rowDims assigns the sink and the reuse mode of the i-th generated case
@@ -217,6 +223,39 @@ func (rc rowCase) write(b *gen.Built, out io.Writer) error {
 		sortRowCount := []int64{1, 3, 17, 64, 1000}[int(uint64(rc.Seed)/7%5)]
 		w := parquet.NewSortingWriter[any](out, sortRowCount, wopts...)
 		writeRows, flush, finish = w.WriteRows, w.Flush, w.Close
+	case "handover":
+		w := parquet.NewGenericWriter[any](out, wopts...)
+		ncols := len(b.Root.Leaves())
+		batch := 0
+		writeRows = func(rows []parquet.Row) (int, error) {
+			route := mix(uint64(rc.Seed)*31+uint64(batch)) % 5
+			batch++
+			if len(rows) == 0 {
+				route = 0
+			}
+			switch route {
+			case 0:
+				return w.WriteRows(rows)
+			case 1, 2:
+				return writeColumns(w.ColumnWriters(), rows, ncols)
+			}
+			rg := w.BeginRowGroup()
+			var n int
+			var err error
+			if route == 3 {
+				n, err = rg.WriteRows(rows)
+			} else {
+				n, err = writeColumns(rg.ColumnWriters(), rows, ncols)
+			}
+			if err != nil || n != len(rows) {
+				return n, err
+			}
+			if c, err := rg.Commit(); err != nil || c != int64(len(rows)) {
+				return 0, fmt.Errorf("Commit = %d, %v for a row group of %d rows", c, err, len(rows))
+			}
+			return n, nil
+		}
+		flush, finish = w.Flush, w.Close
 	default:
 		return fmt.Errorf("unknown sink %q", rc.Sink)
 	}
@@ -275,6 +314,27 @@ func (rc rowCase) write(b *gen.Built, out io.Writer) error {
 		return fmt.Errorf("close: %w", err)
 	}
 	return nil
+}
+
+// writeColumns hands the rows over column by column (the values of a column in
+// the order of the rows, in memory of their own: what a column writer may keep
+// of the values it is given is not the RowWriter contract).
+func writeColumns(cols []*parquet.ColumnWriter, rows []parquet.Row, ncols int) (int, error) {
+	if len(cols) != ncols {
+		return 0, fmt.Errorf("%d column writers for %d leaf columns", len(cols), ncols)
+	}
+	vals := make([][]parquet.Value, ncols)
+	for _, r := range rows {
+		for _, v := range r {
+			vals[v.Column()] = append(vals[v.Column()], v.Clone())
+		}
+	}
+	for i := range cols {
+		if _, err := cols[i].WriteRowValues(vals[i]); err != nil {
+			return 0, fmt.Errorf("column %d: WriteRowValues: %w", i, err)
+		}
+	}
+	return len(rows), nil
 }
 
 // comparePermutation checks that got holds exactly the rows of want, each as
